@@ -2,6 +2,7 @@
 mod alphabet;
 mod checks;
 mod eseq;
+mod esweep;
 mod http;
 mod model;
 mod pool;
